@@ -408,7 +408,7 @@ fn encode_section(
         assert(hdr.len() == 24);
     }
     let (out_bytes, uncompress_buf_size) = if compress {
-        let compressed_data = deflate_vec(&bytes);
+        let compressed_data = deflate_vec(&bytes); let actual_sz = compressed_data.len(); let max_sz = actual_sz;
         (compressed_data, bytes.len())
     } else {
         (bytes.bytes, 0)
